@@ -321,7 +321,7 @@ func checkC15(r *core.Run) {
 	r.Set("layer_field_pairs", fmt.Sprintf("%d field pairs x %d^2 values: %d", len(fps), len(vals), pairs))
 	// (d) list fields
 	lclass := append([]string{}, class...)
-	lclass = append(lclass, "javascript:alert(1)", "\"", "a b", "\\22", "\xff", " ", "\x7f", "\xc2\x85", "%", "%s", "%20", "%[", "%!", "%d")
+	lclass = append(lclass, "javascript:alert(1)", "\"", "a b", "\\22", "\xff", " ", "\x7f", "\xc2\x85", "%", "%s", "%20", "%[", "%!", "%d", "\U0001F600", "\u65e5", "\xf0\x9f")
 	var l1 []string
 	l1 = append(l1, "")
 	for _, a := range lclass {
@@ -345,7 +345,7 @@ func checkC15(r *core.Run) {
 	single := append(append(append([]string{}, l1...), l2...), l3...)
 	core.ParallelFor(len(single), func(i int) {
 		v := single[i]
-		for _, wrap := range []string{v, "\"" + v + "\"", "x" + v, v + "x"} {
+		for _, wrap := range []string{v, "\"" + v + "\"", "x" + v, v + "x", "'" + v + "'", "'" + v + "'x"} {
 			eval(safehtml.StyleProperties{BackgroundImageURLs: []string{wrap}, Color: "red"})
 			eval(safehtml.StyleProperties{FontFamily: []string{wrap}, Color: "red"})
 			atomic.AddInt64(&lists, 2)
